@@ -33,3 +33,50 @@ claim('C10',
       "enumerates every binding once is a stated lemma; `locals()` programs are treated as the code treats them.",
       "contract-based deductive verification: loop-invariant cut on the real lint(), case product over the real binding/scope classes",
       "DESIGN.md 3 C10")
+_FLOW_NOTE = ("Trusted: the composition lemma (structural induction over the program, each step a discharged obligation) and the link between "
+              "spec/flow.py and CPython's semantics; ast positions follow token order; table functions are parametric in the key; bisect and set "
+              "iteration by their library contracts. Obligations are pointwise in one symbolic identifier with opaque sub-statements/"
+              "sub-expressions (both representations of a child's effect) and symbolic source positions.")
+claim('C01',
+      "Per-construct contracts on the real extract_visitor (every binding construct of the grammar, all parameter kinds, read coverage of every "
+      "sub-expression), table lemmas on MergedDict / Flow.names / names_at / parent_names (any number of predecessors) / insert_loc, and the "
+      "scope rule: the table at every read contains every binding that can reach it.",
+      _FLOW_NOTE, "contract-based deductive verification: symbolic execution of the real visitor and table functions, loop invariants, z3",
+      "DESIGN.md 3 C01")
+claim('C02',
+      "Superset direction of the per-construct reaching-definition equalities (if/while/for/try/with/assign/walrus/def/lambda/class/"
+      "comprehensions/imports), the join of predecessor tables, MultiName flattening and the memo-coherence invariant: every definition "
+      "that reaches a read is among the definitions supp associates with it.",
+      _FLOW_NOTE, "contract-based deductive verification: gen/kill transfer obligations on the real visitor, z3", "DESIGN.md 3 C02")
+claim('C03',
+      "Subset direction and the `unbound` component of the same equalities, binding placement (a name is not visible inside its own "
+      "right-hand side: get_expr_end contract), `x: T` binds nothing, has_undefined / valid_names contracts.",
+      _FLOW_NOTE, "contract-based deductive verification: gen/kill transfer obligations on the real visitor, z3", "DESIGN.md 3 C03")
+claim('C04',
+      "Memo-coherence: LoopFlow.names on real region objects with the predecessor computation replaced by its contract (it memoises "
+      "partial tables through the real descriptor): no table memoised while a back edge is unresolved survives the resolution, on normal "
+      "and exceptional exit and for nested loops; re-entrancy guards of LoopFlow and EvalCtx.evaluate; descriptor contracts.",
+      "The number of memo stores per resolution is instantiated at 1 and 3 and the nesting depth at 1 and 2 (the mechanism is a uniform loop over "
+      "a list); evaluation memos that depend on other files are C09; Inv_memo => history independence is a stated lemma.",
+      "contract-based deductive verification: ghost-state (partial tables) contracts on the real memoisation sites", "DESIGN.md 3 C04")
+claim('C05',
+      "Flow.parent_names (entry region) is proved, at an arbitrary identifier, to follow the resolution rule of the language reference "
+      "(global-declared -> module, local -> never inherited, otherwise enclosing scope; class bodies skipped by methods), Flow.add_name "
+      "routing and RI_locals, the names property of every scope class, global / nonlocal declarations, and the region every "
+      "decorator / default / annotation / base / keyword is evaluated in.",
+      "Induction on the depth of the scope chain is stated; comprehension scopes are compared as bindings of the enclosing scope, as the property says.",
+      "contract-based deductive verification: symbolic membership flags on the real scope functions, z3", "DESIGN.md 3 C05")
+claim('C13',
+      "Every per-construct obligation of C01-C03 is discharged with symbolic source positions constrained only by token order, so it holds "
+      "for every layout; get_expr_end is proved for every expression class of the grammar with unconstrained node positions; "
+      "get_first_body_node_loc, insert_loc and names_at are proved over symbolic positions.",
+      "Frame scan: positions are consulted only through Location.__lt__, bisect, insort, get_expr_end, get_first_body_node_loc, np; "
+      "equal diagnostics follow from equal tables (C10 is position-free apart from copying declared_at).",
+      "contract-based deductive verification: corollary of how C01-C03 are discharged + contracts on the position helpers", "DESIGN.md 3 C13")
+claim('C17',
+      "MultiName.__init__ (and valid_names / first_name) is executed with set iteration modelled as an arbitrary permutation, all "
+      "permutations and all orders of the incoming row explored, positions symbolic: the alternatives are the flattening, listed in "
+      "source order whatever the permutation.",
+      "Up to 4 alternatives per row in the permutation exploration; everything else between the entry points and a set is deterministic by "
+      "a mechanical scan (no id()/hash()/time/random), assist sorts, lint enumerates in AST / region order.",
+      "contract-based deductive verification: permutation-independence obligations on the real MultiName.__init__", "DESIGN.md 3 C17")
